@@ -407,4 +407,25 @@ theorem SetsEquiv.countID_eq {a b : List (List Event)} (h : SetsEquiv a b) (id :
   rw [V.StateRes.countID_eq, V.StateRes.countID_eq]
   exact (h.flatten_perm.filter _).length_eq
 
+/-! ## The (type, state_key) slot of a state event -/
+
+/-- the (type, state_key) slot of a state event -/
+def keyOf (e : Event) : Bytes × Bytes := (e.type, e.stateKey.getD [])
+
+/-- `e` is a state event occupying slot `key` -/
+def hasKey (key : Bytes × Bytes) (e : Event) : Bool := e.stateKey.isSome && keyOf e == key
+
+theorem hasKey_iff {key : Bytes × Bytes} {e : Event} : hasKey key e = true ↔ e.stateKey = some key.2 ∧ e.type = key.1 := by
+  unfold hasKey keyOf
+  cases h : e.stateKey with
+  | none => simp
+  | some k =>
+    simp only [Option.isSome_some, Option.getD_some, Bool.true_and, beq_iff_eq]
+    constructor
+    · intro h'; subst h'; exact ⟨rfl, rfl⟩
+    · rintro ⟨h1, h2⟩; cases h1; rw [h2]
+
+theorem hasKey_keyOf {e : Event} (h : e.stateKey.isSome) : hasKey (keyOf e) e = true := by
+  unfold hasKey; simp [h]
+
 end V.StateRes
